@@ -262,15 +262,33 @@ func execMembership(t *testing.T, p *Plan) *Result {
 			w.K.Settle(5 * time.Second)
 			return o.id
 		}
+		shaped := map[int]bool{}
 		destOf := func(id string) []string {
 			var out []string
 			for _, e := range w.decodeEmissions(0) {
 				if e.ID == id {
 					out = append(out, e.E.Dst)
+					if e.M != nil && e.M.IsRequest && e.E.Err == "" && !shaped[e.E.Seq] {
+						shaped[e.E.Seq] = true
+						// every request of this world comes with one Via entry and leaves towards a backend: one fresh
+						// entry of the listen entry on top of it, whatever the rotation went through meanwhile (C06)
+						w.Stats["judged:C06"]++
+						vias, err := e.M.Vias()
+						lport := l.UDP
+						if strings.EqualFold(e.E.Proto, "tcp") && l.TCP != 0 {
+							lport = l.TCP
+						}
+						if err != nil || len(vias) != 2 {
+							v("C06", "via-count-towards-backend", id, fmt.Sprintf("scheme=%s;n=%d", scheme, len(vias)), "a request received with one Via entry was sent to backend %s with %d", e.E.Dst, len(vias))
+						} else if vias[0].Host != l.Addr || vias[0].EffPort() != lport && vias[0].EffPort() != l.UDP && vias[0].EffPort() != l.TCP {
+							v("C06", "via-names-wrong-listener", id, "scheme="+scheme, "the Via entry on top of a request sent to backend %s is %q; the listen entry is %s", e.E.Dst, vias[0].Raw, l.Addr)
+						}
+					}
 				}
 			}
 			return out
 		}
+
 		probeAll := func(step string) {
 			for _, n := range names {
 				if ambiguous[n] {
